@@ -2,8 +2,8 @@
 Oracle ops for the `dup` family (C08): the `uintSet` and `objectNamespace` models.
 
   dup uintset <tok>…     tok = `<n>` insert n | `h<n>` has n      → one char per token: 1/0
-  dup ns <tok>…          tok = `<hex>` InsertUnquoted (`-` = empty name) | `rm` RemoveLast
-                         → two chars per token: result (1/0, `-` for rm) and mode after the op (L linear / M map),
+  dup ns <tok>…          tok = `<hex>` InsertUnquoted (`-` = empty name) | `rm` RemoveLast | `reset` Reset (slot reuse)
+                         → two chars per token: result (1/0, `-` for rm/reset) and mode after the op (L linear / M map),
                            then ` <length>` and ` <hex>` for every name held, in order
 -/
 import JsonV.Oracle.Util
@@ -32,6 +32,9 @@ def nsOps : List String → Namespace → List Char → Option (Namespace × Lis
   | t :: ts, ns, acc =>
     if t == "rm" then
       let ns' := ns.removeLast
+      nsOps ts ns' (modeChar ns' :: '-' :: acc)
+    else if t == "reset" then
+      let ns' := ns.reset
       nsOps ts ns' (modeChar ns' :: '-' :: acc)
     else
       match bytesOfHex t with
